@@ -2,7 +2,7 @@
 
 spec/Location.tla enumerates layouts (lead lines, a neutral item first, enclosing frames, decorator /
 attribute lines, split headers / calls / expressions, LF / CRLF, with and without final newline, with and
-without code after the construct) and fixes the construct's lines for each; 24 construct templates
+without code after the construct) and fixes the construct's lines for each; 25 construct templates
 (Python / TypeScript / Rust, one per reporting linter) are rendered under the layouts, linted, and
 LocationTrace.tla judges every reported violation: file in run, line in file, column in line, construct
 line, quoted name on line.  The three layout-independent clauses are also judged on a corpus: every
@@ -125,9 +125,14 @@ def quoted_ok(rule: str, msg: str, line: str, files: dict[str, list[str]]) -> tu
             fl = next(iter(files.values()))
             if not (1 <= int(n) <= len(fl)):
                 return False, f"CITED: line {n} outside the file"
+    if m and rule == "nesting.excessive-depth" and m.group(1) in SYNTHETIC_NAMES:
+        return True, ""          # a placeholder for a function without a name is not a quotation from the source
     if m:
         return need(m.group(1))
     return True, ""
+
+
+SYNTHETIC_NAMES = {"arrow_function", "function_expression", "anonymous", "<anonymous>", "<lambda>", "closure"}
 
 
 def facts(v: dict, files: dict[str, list[str]], root: Path) -> dict:
@@ -274,7 +279,7 @@ def run(chk) -> None:
     drive.preload()
     chk.rule = ("layouts = lead lines 0..2 x neutral item first or not x 0..2 enclosing frames x 0..2 decorator/attribute "
                 "lines x split or one-line header/call/expression x LF/CRLF x final newline or not x code after or not "
-                "(864 layouts emitted by TLC) x 24 construct templates (13 Python, 5 TypeScript, 6 Rust: nesting, srp, "
+                "(864 layouts emitted by TLC) x 25 construct templates (13 Python, 6 TypeScript, 6 Rust: nesting, srp, "
                 "stateless-class, method-property, magic-numbers, print, conditional-verbose, string-concat, "
                 "regex-in-loop, lbyl, pipeline, cqs, lazy-ignores, unwrap, clone, blocking); corpus = every catalogued "
                 "documented example as is, with CRLF, without final newline, with two leading blank lines and below a leading comment of multi-byte characters, and DRY "
